@@ -8,9 +8,11 @@
    hypotheses of the proof: values handed to set/update are tensordicts coherent by themselves; when a batch size is
    assigned (batch_size =, auto_batch_size_) the nodes BELOW carry no dim names; auto_batch_size_(k) is in its growing
    regime.  Outside these two proof hypotheses the statement is neither proved nor refuted (the oracle covers it). *)
-From Coq Require Import List String Bool Arith.
+From Coq Require Import ZArith List String Bool Arith.
 Import ListNotations.
-From TD Require Import Model.C01_Tree Model.C01_Ops Model.C01_Scope Proofs.C01_SetP Proofs.C01_AutoP Proofs.C01_MainP.
+From TD Require Import Model.C01_Tree Model.C01_Ops Model.C01_Scope Model.C01_Index Model.C01_All.
+From TD Require Import Proofs.C01_SetP Proofs.C01_AutoP Proofs.C01_MainP Proofs.C01_IndexP Proofs.C01_AllP.
+From TD Require Model.C03_Index.
 Open Scope string_scope.
 Open Scope list_scope.
 
@@ -131,3 +133,101 @@ Example C01_ex_outcomes :
 Proof. vm_compute. reflexivity. Qed.
 Example C01_ex_final : coherentb (run ex_tree ex_ops) = true /\ is_empty (run ex_tree ex_ops) = false.
 Proof. vm_compute. split; reflexivity. Qed.
+
+(* ================================================================ index writes (Model/C01_Index.v) ======================
+   td[idx] = value (tensor / scalar / tensordict / dict), set_at_(key, value, idx), update_at_(source, idx), index grammar
+   ints / slices / None / Ellipsis / one advanced index (Model/C03_Index.item).  The model keeps the partial effect of a call
+   that raises midway (entries auto-created before a later item is refused stay). *)
+
+(* C01_index_step: an index write through any handle keeps the whole tree coherent, whatever the index (well-formed or
+   not), whatever the outcome (ok, raised midway, outside the model's grammar); the only hypothesis: tensordict values
+   handed over are coherent by themselves.  No scope exclusion, no proof hypothesis on dim names. *)
+Theorem C01_index_step : forall t path io,
+  Coherent t -> value_okb (iop_value io) = true -> Coherent (fst (istep t path io)).
+Proof. exact istep_coh. Qed.
+Print Assumptions C01_index_step.
+
+(* the same in any context (the node may be a nested entry with any parent batch size / device) *)
+Theorem C01_index_write_any_context : forall o self p d,
+  value_okb (iop_value o) = true -> coh p d self = true -> coh p d (fst (inode_step o self)) = true.
+Proof. exact inode_step_coh. Qed.
+Print Assumptions C01_index_write_any_context.
+
+(* histories of index writes only: every coherent start, every list of calls *)
+Theorem C01_index_reachable : forall (ops : list (list string * iop)) t,
+  Coherent t -> Forall (fun po => value_okb (iop_value (snd po)) = true) ops ->
+  Coherent (fold_left (fun t po => fst (istep t (fst po) (snd po))) ops t).
+Proof. exact irun_coh. Qed.
+Print Assumptions C01_index_reachable.
+
+(* C01_xstep / C01_xreachable: histories that interleave ALL modelled calls (those of C01_step_partial and the index
+   writes); _partial for the same reason as C01_step_partial (x_cleanb = cleanb on the old calls, coherent values on the
+   index writes) *)
+Definition C01_xstep_full_statement : Prop :=
+  forall t o, Coherent t -> x_in_scopeb t o = true -> Coherent (fst (xstep t o)).
+Theorem C01_xstep_partial : forall t o,
+  Coherent t -> x_in_scopeb t o = true -> x_cleanb t o = true -> Coherent (fst (xstep t o)).
+Proof. exact xstep_coh. Qed.
+Print Assumptions C01_xstep_partial.
+Theorem C01_xreachable_partial : forall ops t, Coherent t -> xtrace_ok t ops -> forall n, Coherent (xrun t (firstn n ops)).
+Proof. exact xrun_coh_all. Qed.
+Print Assumptions C01_xreachable_partial.
+
+(* td[idx] = tensor / scalar never changes a shape, a device or a name: the state is returned as it was, ok or raised *)
+Theorem C01_setitem_tensor_keeps_state : forall ix vsh vd self, fst (setitem_idx ix (VTree (Leaf vsh vd)) self) = self.
+Proof. exact setitem_tensor_state. Qed.
+Print Assumptions C01_setitem_tensor_keeps_state.
+
+(* an index the batch size does not admit (_getitem_batch_size raises) is refused before anything is written *)
+Theorem C01_setitem_rejects_bad_index : forall fuel ix v bs dv nm es ix1,
+  C03_Index.convert_ellipsis ix bs = C03_Index.Ok ix1 -> idx_unm ix1 = false -> C03_Index.gbs bs ix1 = C03_Index.Reject ->
+  is_td v = true ->
+  write_td (S fuel) ix v (Node KTd bs dv nm es) = (Node KTd bs dv nm es, Raised).
+Proof. exact setitem_td_bad_index. Qed.
+Print Assumptions C01_setitem_rejects_bad_index.
+
+(* the entry auto-created for a missing key: either the value is refused and nothing is created, or the new tensor has
+   shape  batch_size ++ value.shape[len(indexed batch size):]  and lives on the container's device (cpu when it has none) *)
+Theorem C01_autocreated_entry_shape : forall rec k vsh vd ix ibs bs dv nm es self' o c,
+  aget k es = None ->
+  sub_set rec k (Leaf vsh vd) ix ibs (Node KTd bs dv nm es) = (self', o) -> o <> Unmodelled ->
+  (o = Raised /\ self' = Node KTd bs dv nm es) \/
+  (aget k (node_ents self') = Some c -> c = Leaf (bs ++ skipn (List.length ibs) vsh) (match dv with Some d => d | None => CPU end)).
+Proof. exact autocreated_leaf_shape. Qed.
+Print Assumptions C01_autocreated_entry_shape.
+
+(* non-vacuity: index writes on the tree above — an auto-created key through an int index on a nested handle, a dict
+   value, a write that raises midway AFTER it created an entry (cpu entry pre-allocated, meta value refused), an
+   out-of-range index, a mask, set_at_ through a nested key, update_at_; interleaved with calls of the first family *)
+Definition ex_xops : list xop :=
+  [ XIdx ["n"] (ISetItem [C03_Index.ISl None None None; C03_Index.IInt 1%Z]
+                  (VTree (Node KTd [0] None None [("x", Leaf [0; 5] META); ("new", Leaf [0; 7] CPU)])));
+    XIdx [] (ISetItem [C03_Index.IEll] (VDict [("a", VTree (Leaf [2; 3] CPU)); ("k", VTree (Leaf [6] CPU));
+                                                ("g", VTree (Node KTd [] None None [("w", Leaf [4] CPU)]))]));
+    XIdx [] (ISetItem [] (VTree (Node KTd [] None None [("z", Leaf [4] META)])));          (* creates z on cpu, then raises *)
+    XBase (OAt [] (ORename ["a"] ["b"] false));
+    XIdx ["n"] (ISetItem [C03_Index.IInt 5%Z] (VTree (Leaf [] CPU)));                        (* out of range *)
+    XIdx ["n"] (ISetAt ["m"; "y"] [C03_Index.ISl None None None; C03_Index.IMask [2] 1] (VTree (Leaf [0; 1; 1] CPU)));
+    XIdx ["n"] (IUpdateAt (VDict [("x", VTree (Leaf [2; 5] CPU)); ("nope", VTree (Leaf [] CPU))]) [C03_Index.ISl None (Some 0%Z) None]);
+    XBase (OAt ["n"] (OBatchSize false [0])) ].
+Example C01_ex_xpremises : Coherent ex_tree /\ xtrace_ok ex_tree ex_xops.
+Proof. vm_compute. repeat split. Qed.
+Example C01_ex_xoutcomes :
+  map (fun n => snd (xstep (xrun ex_tree (firstn n ex_xops)) (nth n ex_xops (XBase (OAt [] OClear))))) [0; 1; 2; 3; 4; 5; 6; 7]
+  = [Done; Done; Raised; Done; Raised; Done; Raised; Done].
+Proof. vm_compute. reflexivity. Qed.
+Example C01_ex_xfinal :
+  coherentb (xrun ex_tree ex_xops) = true /\
+  map fst (node_ents (xrun ex_tree ex_xops)) = ["n"; "k"; "g"; "z"; "b"] /\
+  aget "g" (node_ents (xrun ex_tree ex_xops)) = Some (Node KTd [] None None [("w", Leaf [4] CPU)]) /\
+  aget "z" (node_ents (xrun ex_tree ex_xops)) = Some (Leaf [4] CPU).
+Proof. vm_compute. repeat split. Qed.
+(* the premises of C01_setitem_rejects_bad_index and C01_autocreated_entry_shape are met by concrete instances *)
+Example C01_ex_bad_index :
+  C03_Index.convert_ellipsis [C03_Index.ISl None None None; C03_Index.ISl None None None] [3] = C03_Index.Ok [C03_Index.ISl None None None; C03_Index.ISl None None None]
+  /\ C03_Index.gbs [3] [C03_Index.ISl None None None; C03_Index.ISl None None None] = C03_Index.Reject.
+Proof. vm_compute. split; reflexivity. Qed.
+Example C01_ex_autocreated :
+  sub_set (write_td 3) "new" (Leaf [2; 7] META) [C03_Index.IInt 1%Z] [2] (Node KTd [3; 2] (Some META) None [])
+  = (Node KTd [3; 2] (Some META) None [("new", Leaf [3; 2; 7] META)], Done).
+Proof. vm_compute. reflexivity. Qed.
